@@ -134,6 +134,21 @@ def z3_goals():
         for gl, gb in (('x>=0', xr >= Number(RealType, 0)), ('x>0', xr > Number(RealType, 0)), ('x*x<=1', xr * xr <= Number(RealType, 1)), ('1/x>=1', Number(RealType, 1) / xr >= Number(RealType, 1)),
                        ('x/x=1', Eq(xr / xr, Number(RealType, 1))), ('1-x*x>=0', Number(RealType, 1) - xr * xr >= Number(RealType, 0))):
             out.append(('interval %s %s' % (lab, gl), [], Implies(memr(xr, I), gb)))
+    # sibling quantifiers binding the same name, with casts of the bound variable (translation state keyed by variable name)
+    n, m = Var('n', NatType), Var('m', NatType)
+    r = Var('r', RealType)
+    R = lambda v: Number(RealType, v)
+    cast = T.of_nat(RealType)
+    sib = [('of_nat n=r', Eq(cast(n), r)), ('of_nat n=r+1', Eq(cast(n), r + R(1))), ('of_nat n>r', cast(n) > r), ('2*of_nat n=r', Eq(R(2) * cast(n), r)),
+           ('n=m', Eq(n, m)), ('n+1=m', Eq(n + Number(NatType, 1), m)), ('of_nat n=of_nat m+1/2', Eq(cast(n), cast(m) + R(Fraction(1, 2))))]
+    for (l1, b1) in sib:
+        for (l2, b2) in sib:
+            for qn, Q1, Q2 in (('ex,ex', Exists, Exists), ('all,ex', Forall, Exists), ('ex,all', Exists, Forall)):
+                q1, q2 = Q1(n, b1), Q2(n, b2)
+                L = 'siblings %s [%s] [%s]' % (qn, l1, l2)
+                out.append((L + ' -->~', [], Implies(q1, Not(q2))))
+                out.append((L + ' &|-false', [], Implies(And(q1, q2), false)))
+                out.append((L + ' -->', [], Implies(q1, q2)))
     _G['z3'] = out
     return out
 
